@@ -231,6 +231,42 @@ func runC10(c *Ctx) {
 			}
 			c.Check(okSnap, "C10-R2", "parseComments:exclusion state read before it is updated", pc.Decl.Pos(), "snapshot of r.skipNext on entry", "the exclusion flag is read after it was already updated for this line")
 		}
+		// "after ignore/file the line counts as excluded": skipAll is only ever set together
+		// with skipNext, and skipNext is only ever cleared where skipAll is known false. Then
+		// the test for an excluded line also covers everything after ignore/file.
+		isTrueStore := func(n ast.Node, field string, val string) bool {
+			as, ok := n.(*ast.AssignStmt)
+			if !ok || len(as.Lhs) != 1 || len(as.Rhs) != 1 || !fieldSel(info, as.Lhs[0], CR, field) {
+				return false
+			}
+			tv, ok := info.Types[as.Rhs[0]]
+			return ok && tv.Value != nil && tv.Value.String() == val
+		}
+		skipAllImpliesExcluded := true
+		nAllStores := 0
+		for _, st := range fl.Find(func(n ast.Node) bool { return isTrueStore(n, "skipAll", "true") }) {
+			nAllStores++
+			together := false
+			for _, nd := range st.Site.B.Nodes {
+				if isTrueStore(nd, "skipNext", "true") {
+					together = true
+				}
+			}
+			if !together {
+				skipAllImpliesExcluded = false
+			}
+		}
+		if nAllStores == 0 {
+			skipAllImpliesExcluded = false
+		}
+		for _, st := range fl.Find(skipNextStored) {
+			if isTrueStore(st.Inner, "skipNext", "true") {
+				continue
+			}
+			if !fl.Dominated(st.Site, nil, notSkipAll) {
+				skipAllImpliesExcluded = false
+			}
+		}
 		for _, field := range []string{"comments", "diagnostics"} {
 			apps := fl.Find(func(n ast.Node) bool {
 				as, ok := n.(*ast.AssignStmt)
@@ -252,7 +288,7 @@ func runC10(c *Ctx) {
 						}
 					}
 				}
-				c.Check(d1, "C10-R2", "parseComments:r."+field+" not collected after ignore/file", a.Inner.Pos(), "dominated by !skipAll", "r."+field+" is appended to although everything after ignore/file must be inert")
+				c.Check(d1 || (d2 && skipAllImpliesExcluded), "C10-R2", "parseComments:r."+field+" not collected after ignore/file", a.Inner.Pos(), "dominated by !skipAll (or by the excluded-line test, skipAll being set only together with skipNext)", "r."+field+" is appended to although everything after ignore/file must be inert")
 				c.Check(d2, "C10-R2", "parseComments:r."+field+" not collected from a line excluded by an earlier comment", a.Inner.Pos(), "dominated by the line not being excluded",
 					"a pint comment on a line excluded by ignore/next-line or ignore/begin is still collected into r."+field+" (e.g. `# pint file/disable promql/syntax` inside an ignored block silences a Fatal problem)")
 			}
